@@ -4,11 +4,14 @@ from checks import generic
 RULE = ("random histories over a pool of <=8 events (timers, pipe read/write, signal events; persistent/one-shot; 1-3 priorities) of "
         "event_new/add/del/active/active_later/remove_timer/priority_set/free/loop, also from inside callbacks; after every operation and at every "
         "callback entry/exit and backend wait: event_pending incl. expiry, event_initialized, priority, get_num_events (7 flag combos), get_max_events, "
-        "event_base_assert_ok_ compared with the model; callbacks and result flags matched in lockstep; non-trivial = >=1 callback ran; distinct = hash(seed, case, #callbacks, #queries)")
+        "event_base_assert_ok_ compared with the model; callbacks and result flags matched in lockstep; non-trivial = >=1 callback ran (random modes) / every enumerated sequence (enum mode); distinct = hash(seed, case, #callbacks, #queries)")
 STEPS = [
     dict(flavor="asan", harness="h_core", args=["--mode", "state"], cases=dict(quick=10000, thorough=600000)),
     dict(flavor="asan", harness="h_core", args=["--mode", "timers"], cases=dict(quick=2000, thorough=60000), seed_off=102),
     dict(flavor="asan", harness="h_core", args=["--mode", "prio"], cases=dict(quick=2000, thorough=60000), seed_off=103),
+    # bounded-exhaustive: every op sequence of length <=5 over a 16-letter alphabet x 5 in-callback variants on a fixed 3-event pool
+    # (5 * (16+16^2+..+16^5) = 5,592,400 cases in thorough; quick enumerates all sequences of length <=3 = 21,840)
+    dict(flavor="asan", harness="h_core", args=["--mode", "enum"], cases=dict(quick=21840, thorough=5592400)),
 ]
 REG = dict(category="exploration",
            text="Online lockstep monitor: every API return value and every queryable observable is compared with a reference model of the documented event state "
@@ -20,4 +23,4 @@ REG = dict(category="exploration",
 
 def run(tier, seed):
     return generic.run_spec("C02", tier, seed, STEPS, RULE,
-                            required=["state_queries", "callbacks", "io_callbacks", "timers_fired", "signal_ncalls_iterations", "later_promoted"])
+                            required=["enum_sequences", "state_queries", "callbacks", "io_callbacks", "timers_fired", "signal_ncalls_iterations", "later_promoted"])
